@@ -18,7 +18,7 @@ fn gen_meta(rng: &mut Rng, valid_bias: bool) -> MetaSpec {
 }
 
 fn gen_dev(rng: &mut Rng, wire_only: bool) -> Dev {
-    let k = if wire_only { rng.range(10, 15) } else { rng.below(17) };
+    let k = if wire_only { rng.range(10, 18) } else { rng.below(20) };
     match k {
         0 => Dev::NeverApproved,
         1 => Dev::ApprovedOtherPayload,
@@ -36,6 +36,9 @@ fn gen_dev(rng: &mut Rng, wire_only: bool) -> Dev {
         13 => Dev::BitFlip(rng.next_u64() as u32),
         14 => Dev::DirtyPadding,
         15 => Dev::OffsetEdit(*rng.pick(&[-32i8, -1, 1, 32, 64])),
+        16 => Dev::InnerTrailing(rng.below(3) as u8),
+        17 => Dev::InnerDirtyWord(rng.below(2) as u8),
+        18 => Dev::InnerDirtyPadding,
         _ => Dev::DeliverTwice,
     }
 }
